@@ -283,6 +283,46 @@ def gen_import_arms(man):
     op, cp = fn_body(comp, "new")
     pn = find_seq(comp, ["module_path", ".", "unwrap_or", "("])
     info["default_module_path"] = rust_str(comp[pn + 4].text) if pn >= 0 and comp[pn + 4].kind == "str" else "?"
+    # function names: is_loading_module takes a frame whose function has an EMPTY name for a module body.  Every
+    # `new_compiler(kind, name, ..)` site: the script (name `empty`), `function` (name = the identifier token just
+    # consumed by its callers), `initialiser` (name = an attribute argument, an identifier token), `lambda`
+    # (name formatted "lambda-{}")
+    sites = find_all_seq(comp, [".", "new_compiler", "("])
+    kinds = []
+    for i in sites:
+        e = match_group(comp, i + 2)
+        args = [texts(comp, a, b) for a, b in __import__("rustlex").split_top(comp, i + 3, e)]
+        kinds.append((args[0], args[1] if len(args) > 1 else []))
+    script_sites = [k for k in kinds if k[0] == ["FunctionKind", "::", "Script"]]
+    info["new_compiler_sites"] = len(sites)
+    only_script_empty = (len(script_sites) == 1 and script_sites[0][1] == ["empty"]
+                         and all(k[1] == ["name"] for k in kinds if k not in script_sites))
+    # `empty` is the interned "" ; `name` of the other sites
+    only_script_empty = only_script_empty and contains(comp, 0, len(comp), ["let", "empty", "=", "vm", ".", "new_gc_obj_string", "(", '""', ")"])
+    lo, lc = fn_body(comp, "lambda")
+    lf = find_seq(comp, ["format!", "("], lo, lc)
+    lam_fmt = first_str(comp, lf, match_group(comp, lf + 1)) if lf >= 0 else "?"
+    lam_ok = lf >= 0 and contains(comp, lo, lc, ["let", "name", "="]) and contains(comp, lo, lc, ["new_gc_obj_string", "(", "format!"])
+    fo, fc_ = fn_body(comp, "function")
+    fun_ok = contains(comp, fo, fc_, ["let", "name", "=", "self", ".", "previous", ".", "source", ".", "clone", "(", ")"])
+    callers_ok = True
+    for i in find_all_seq(comp, ["self", ".", "function", "("]):
+        # the enclosing fn consumed an identifier (directly or through parse_variable) before
+        j = i
+        while j > 0 and not (comp[j].text == "fn" and comp[j + 1].kind == "id" and comp[j + 2].text == "("):
+            j -= 1
+        callers_ok = callers_ok and (contains(comp, j, i, ["consume", "(", "TokenKind", "::", "Identifier"])
+                                     or contains(comp, j, i, ["self", ".", "parse_variable", "("]))
+    pv0, pv1 = fn_body(comp, "parse_variable")
+    callers_ok = callers_ok and contains(comp, pv0, pv1, ["consume", "(", "TokenKind", "::", "Identifier"])
+    io, ic = fn_body(comp, "initialiser")
+    init_ok = contains(comp, io, ic, ["name", ".", "source", ".", "as_str", "(", ")"])
+    ao, ac = fn_body(comp, "attribute")
+    init_ok = init_ok and contains(comp, ao, ac, ["match_token", "(", "TokenKind", "::", "Identifier", ")"]) \
+        and contains(comp, ao, ac, ["arguments", ".", "push", "(", "self", ".", "previous", ".", "clone", "(", ")", ")"])
+    info["lambda_name_fmt"] = lam_fmt or "?"
+    info["only_script_has_empty_name"] = bool(only_script_empty and lam_ok and fun_ok and callers_ok and init_ok
+                                              and (lam_fmt or "").replace("{}", "") != "")
     # core.yl classes
     with open(os.path.join(SRC, "core.yl")) as fh:
         core = fh.read()
@@ -323,6 +363,8 @@ def gen_import_arms(man):
     L.append("Definition gen_default_alias_file_name : bool := %s." % b(info["default_alias_file_name"]))
     L.append("Definition gen_import_emits_start_finish_define : bool := %s." % b(info["import_emits_start_finish_define"]))
     L.append("Definition gen_default_module_path : string := %s." % coq_str(info["default_module_path"]))
+    L.append("Definition gen_lambda_name_fmt : string := %s." % coq_str(info["lambda_name_fmt"]))
+    L.append("Definition gen_only_script_has_empty_name : bool := %s." % b(info["only_script_has_empty_name"]))
     return "\n".join(L) + "\n"
 
 
